@@ -27,3 +27,7 @@ def run(repo, res, tier):
     apirules.rule_f2(repo, res)
     apirules.rule_f2b(repo, res)
     apirules.rule_f3(repo, res)
+    # what follows END is ignored because a character outside the dialect's set ends the END lexeme: the character
+    # tables themselves (bytes of attached image data must not become part of the token)
+    from . import common as _c
+    _c.rule_i1(repo, res)
